@@ -256,6 +256,8 @@ def check(run):
         return (not ok), {"call": f"approximate_partition({seq}, {g})", "result": r}
     verify(run, TB.REL, TB.approximate_partition, fingerprint=TB.FINGERPRINT, replay=replay)
     run_cases(run, w_partition, [(L, g) for L in range(0, 14) for g in range(1, 6)])
+    from props import C0x_range
+    run_cases(run, C0x_range.w_tree, [("range", run.seed + i) for i in range(2 if run.tier == "quick" else 8)])
     from props import C01_sym
     guarded(run, C01_sym.prove_tree)
     seeds = list(range(run.seed * 100, run.seed * 100 + (3 if run.tier == "quick" else 10)))
